@@ -13,6 +13,8 @@ import Mathlib.Analysis.SpecialFunctions.Log.Basic
 import Mathlib.Analysis.SpecialFunctions.Trigonometric.Inverse
 import Mathlib.Analysis.SpecialFunctions.Pow.Real
 import Mathlib.Analysis.SpecialFunctions.Integrals.Basic
+import Mathlib.Probability.Distributions.Gaussian.Real
+import Mathlib.Probability.CDF
 import Mathlib.Tactic.Positivity
 import Mathlib.Tactic.NormNum.OfScientific
 import Mathlib.Tactic.Ring
@@ -871,5 +873,100 @@ theorem integral_sub_pow (a b : ℝ) (n : ℕ) :
   rw [intervalIntegral.integral_comp_sub_right (fun t => t ^ n) ((a + b) / 2), integral_pow]
   congr 2 <;> ring
 
+
+/-! ### the true standard normal cdf (Mathlib's `gaussianReal 0 1`) -/
+
+section Gauss
+open ProbabilityTheory Set Filter Topology
+
+/-- the standard normal law -/
+noncomputable abbrev stdGauss : Measure ℝ := gaussianReal 0 1
+
+/-- the true standard normal cdf `Φ(x) = N(0,1)((-∞, x])` -/
+noncomputable def gaussΦ (x : ℝ) : ℝ := cdf stdGauss x
+
+instance : NullSingletonClass stdGauss := nullSingletonClass_gaussianReal one_ne_zero
+
+theorem gaussΦ_eq (x : ℝ) : gaussΦ x = stdGauss.real (Iic x) := cdf_eq_real _ x
+
+theorem stdGauss_pos_of_volume_pos {s : Set ℝ} (hs : volume s ≠ 0) : 0 < stdGauss.real s := by
+  have h1 : stdGauss s ≠ 0 := fun h => hs (gaussianReal_absolutelyContinuous' 0 one_ne_zero h)
+  exact ENNReal.toReal_pos h1 (measure_ne_top _ _)
+
+theorem gaussΦ_strictMono : StrictMono gaussΦ := by
+  intro x y hxy
+  have hsub : Iic x ⊆ Iic y := Iic_subset_Iic.mpr (le_of_lt hxy)
+  have hd : Iic y \ Iic x = Ioc x y := by ext z; simp [and_comm]
+  have h1 := measureReal_sdiff (μ := stdGauss) hsub measurableSet_Iic
+  rw [hd] at h1
+  have h2 : 0 < stdGauss.real (Ioc x y) :=
+    stdGauss_pos_of_volume_pos (by rw [Real.volume_Ioc]; simp [hxy])
+  rw [gaussΦ_eq, gaussΦ_eq]; linarith
+
+theorem gaussΦ_pos (x : ℝ) : 0 < gaussΦ x := by
+  rw [gaussΦ_eq]; exact stdGauss_pos_of_volume_pos (by simp)
+
+theorem gaussΦ_lt_one (x : ℝ) : gaussΦ x < 1 := by
+  have h1 := measureReal_compl (μ := stdGauss) (measurableSet_Iic (a := x))
+  rw [probReal_univ] at h1
+  have h2 : 0 < stdGauss.real (Iic x)ᶜ := stdGauss_pos_of_volume_pos (by rw [compl_Iic]; simp)
+  rw [gaussΦ_eq]; linarith
+
+theorem gaussΦ_continuous : Continuous gaussΦ := by
+  rw [continuous_iff_continuousAt]
+  intro x
+  have hmono : Monotone gaussΦ := gaussΦ_strictMono.monotone
+  rw [hmono.continuousAt_iff_leftLim_eq_rightLim]
+  have hs := StieltjesFunction.measure_singleton (cdf stdGauss) x
+  rw [measure_cdf, measure_singleton] at hs
+  have hr : Function.rightLim gaussΦ x = gaussΦ x := (cdf stdGauss).rightLim_eq x
+  have hle : Function.leftLim gaussΦ x ≤ gaussΦ x := hmono.leftLim_le (le_refl x)
+  have : gaussΦ x - Function.leftLim gaussΦ x ≤ 0 := by
+    have := hs.symm
+    rw [ENNReal.ofReal_eq_zero] at this
+    exact this
+  rw [hr]; linarith
+
+theorem gaussΦ_surj {p : ℝ} (hp0 : 0 < p) (hp1 : p < 1) : ∃ x, gaussΦ x = p := by
+  have h1 : ∃ a, gaussΦ a ≤ p := by
+    have := (tendsto_cdf_atBot stdGauss).eventually (gt_mem_nhds hp0)
+    obtain ⟨a, ha⟩ := this.exists
+    exact ⟨a, le_of_lt ha⟩
+  have h2 : ∃ b, p ≤ gaussΦ b := by
+    have := (tendsto_cdf_atTop stdGauss).eventually (lt_mem_nhds hp1)
+    obtain ⟨b, hb⟩ := this.exists
+    exact ⟨b, le_of_lt hb⟩
+  exact mem_range_of_exists_le_of_exists_ge gaussΦ_continuous h1 h2
+
+open Classical in
+/-- the standard normal quantile function -/
+noncomputable def gaussQ (p : ℝ) : ℝ := if h : ∃ x, gaussΦ x = p then h.choose else 0
+
+theorem gaussΦ_symm (x : ℝ) : gaussΦ (-x) = 1 - gaussΦ x := by
+  have hmap : stdGauss.map (fun x => -x) = stdGauss := by
+    have := gaussianReal_map_neg (μ := 0) (v := 1)
+    simpa using this
+  have h1 : stdGauss (Iic (-x)) = stdGauss (Ici x) := by
+    conv_lhs => rw [← hmap]
+    rw [Measure.map_apply (by fun_prop) measurableSet_Iic]
+    congr 1; ext z; simp
+  have h2 : stdGauss.real (Ici x) = stdGauss.real (Ioi x) := by
+    have : Ici x = Ioi x ∪ {x} := by ext z; simp [le_iff_lt_or_eq]
+    rw [this]
+    exact measureReal_congr (union_ae_eq_left_of_ae_eq_empty (by simp [ae_eq_empty]))
+  have h3 := measureReal_compl (μ := stdGauss) (measurableSet_Iic (a := x))
+  rw [probReal_univ, compl_Iic] at h3
+  rw [gaussΦ_eq, gaussΦ_eq, measureReal_def, h1, ← measureReal_def, h2, h3]
+
+/-- `N(m, v)` is the image of `N(0,1)` under `z ↦ m + √v·z` -/
+theorem gaussianReal_eq_map_std (m : ℝ) (v : NNReal) :
+    gaussianReal m v = (stdGauss.map (fun z => Real.sqrt v * z)).map (fun z => z + m) := by
+  rw [gaussianReal_map_const_mul, gaussianReal_map_add_const]
+  congr 1
+  · simp
+  · apply NNReal.eq; simp
+
+
+end Gauss
 
 end GSV.Lemmas.Transform
